@@ -340,7 +340,7 @@ def count_pass(case, mode="structural", cold=False):
         faults.cache_drop()
         pan0 = panel(build_case(case))
     return {"count": info["count"], "trace": info["trace"], "dirty": dirty, "answer": ans,
-            "panel": pan0, "values": vals, "hidden": hidden}
+            "panel": pan0, "values": vals, "hidden": hidden, "globals": faults.global_scalars()}
 
 
 def inject(case, k, mode, exc_name, ref, deep, k2=None, cold=False):
@@ -365,6 +365,11 @@ def inject(case, k, mode, exc_name, ref, deep, k2=None, cold=False):
     if not info["fired"]:
         return "not-fired", "", None
     site = info["fired_site"]
+    gl = faults.global_scalars()
+    if gl != ref["globals"]:
+        diff = sorted(k for k in set(gl) | set(ref["globals"]) if gl.get(k) != ref["globals"].get(k))
+        return "VIOLATION", ("module-level configuration left changed after the fault: " +
+                             ", ".join(f"{k}: {ref['globals'].get(k)} -> {gl.get(k)}" for k in diff[:4])), site
     status = "fired-ok" if outcome == "raise" else "swallowed-ok"
     if k2 is not None:
         # fault sequence: a second fault in the same operation on the surviving operands
@@ -467,6 +472,7 @@ def badarg_targets():
         ("mixed-polygon", S(gen.poly_chain([(0.5, 1.25), (F(3), F(0)), (F(2), F(2))]))),
         # ... and rational points before float ones
         ("rational-square-float-hole", ("C", (S(_sq(8)), S(gen.reverse_chain(_circle(1.0, 0.0, 0.0, 4)))))),
+        ("ring-with-tiny-hole", ("C", (S(_sq(4)), S(_sq(F(1, 100), rev=True))))),
         ("mixed-polygon-rational-first", S(gen.poly_chain([(F(0), F(0)), (F(3), F(0)), (2.5, 2.25), (0.5, 1.75)]))),
     ]
 
